@@ -32,6 +32,9 @@ WITNESS_ACCESS = [
     "src/psyclone/tests/test_files/dynamo0p3/infrastructure/function_space/function_space_mod.F90",
 ]
 WITNESS_FORWARD = ["src/psyclone/tests/test_files/dynamo0p3/infrastructure/utilities/constants_mod.f90"]
+# bundled files with ALLOCATE options / named intrinsic arguments: always part of the quick sample
+NAMED_ARG_FILES = ["src/psyclone/tests/test_files/dynamo0p3/infrastructure/mesh/mesh_colouring_mod.F90",
+                   "src/psyclone/tests/test_files/dynamo0p3/infrastructure/mesh/mesh_colouring_mod.f90"]
 
 ACCESS_SRC = """module am
   use ext_mod, only: ev2, ev1, ek1
@@ -123,6 +126,12 @@ def forward_reference(w1_src):
 def classify_unstable(src, w1, w2, sorts):
     if only_access_order(w1, w2) and not sorts:
         return "C03-access-order"
+    if w2 and w1 != w2 and w1.lower() == w2.lower() and re.search(r"result\s*\(\s*\w*[A-Z]", w1):
+        return "C03-result-name-case"
+    if not w2 and re.search(r"(public|private)\s*::.*_psyclone_internal_", w1):
+        return "C03-generic-interface-type-name"
+    if w2 and "dimension()" in w1:
+        return "C03-lower-bound-only-dimension"
     from psyclone.psyir.frontend.fortran import FortranReader
     try:
         psyir = FortranReader().psyir_from_source(src)
@@ -224,7 +233,7 @@ def check_generated(chk, n, sorts, known_ids):
     for f in sorted(glob.glob(os.path.join(common.ROOT, "corpus", "C03", "*.f90"))):
         sources.append((open(f).read(), 0, False))
     for i in range(n):
-        g = R.Gen(chk.rng, risky=(i % 6 == 5)).build()
+        g = R.Gen(chk.rng, risky=(i % 6 == 5), named_args=(i % 3 != 2)).build()
         for ft in g.features:
             feats[ft] = feats.get(ft, 0) + 1
         sources.append((g.source(), chk.rng.randrange(2 ** 31), i % 2 == 1))
@@ -316,6 +325,9 @@ def check_generated(chk, n, sorts, known_ids):
 
 def replay_finding(entry, sorts):
     w = entry["witness"]
+    if "src" in w and not w.get("files"):
+        st, w1, w2, _ = round_trip(w["src"])
+        return st in ("unstable", "w1-unreadable") and classify_unstable(w["src"], w1, w2 or "", sorts) == entry["id"]
     for rel in w.get("files", [])[:2]:
         path = os.path.join(common.REPO, rel)
         if not os.path.exists(path):
@@ -350,7 +362,7 @@ def run(chk):
     files = bundled_files()
     if not thorough:
         sample = chk.rng.sample(files, min(45, len(files)))
-        files = [f for f in WITNESS_ACCESS + WITNESS_FORWARD] + sample
+        files = [f for f in WITNESS_ACCESS + WITNESS_FORWARD + NAMED_ARG_FILES] + sample
     chk.cov["file_distribution"] = check_files(chk, files, sorts, set(known))
     if not chk.violations:
         d, f = check_generated(chk, 300 if thorough else 36, sorts, set(known))
